@@ -184,7 +184,7 @@ def find_func(tree: ast.AST, name: str) -> ast.FunctionDef:
     raise TranslateError(f"function {name} not found")
 
 
-def op_chain(stmts: list[ast.stmt], subject: str, bare: bool = False) -> dict[str, list[ast.stmt]]:
+def op_chain(stmts: list[ast.stmt], subject: str, bare: bool = False, lax_else: bool = False) -> dict[str, list[ast.stmt]]:
     """Find the `if <subject>.op == "x": ... elif ...` chain in stmts; return op -> body.
     With bare=True the tested term is `<subject>` itself (e.g. a local `op`)."""
     lhs = subject if bare else f"{subject}.op"
@@ -207,7 +207,7 @@ def op_chain(stmts: list[ast.stmt], subject: str, bare: bool = False) -> dict[st
                         cur = cur.orelse[0]
                     else:
                         # final else must be a raise (or `return None` = "fall back to autodiff")
-                        if cur.orelse and not all(isinstance(s, ast.Raise) or
+                        if cur.orelse and not lax_else and not all(isinstance(s, ast.Raise) or
                                                   (isinstance(s, ast.Return) and ast.unparse(s) == "return None")
                                                   for s in cur.orelse):
                             raise TranslateError(f"operator chain ends in non-raise else at line {cur.lineno}")
@@ -432,6 +432,117 @@ def gen_tables(repo: str) -> str:
     return "\n".join(out) + "\n"
 
 
+NP_FUNCS = {"np.cos": "cos", "np.sin": "sin", "np.exp": "exp", "np.sqrt": "sqrt", "np.cosh": "cosh",
+            "np.sinh": "sinh", "np.tanh": "tanh", "np.tan": "tan", "np.log": "log", "np.abs": "abs"}
+
+
+def np_expr(node: ast.AST, env: dict[str, str]) -> str:
+    """NumPy closure body  ->  Lean term over `[NumAlg α] [DerivAlg α]` in the element `x`"""
+    if isinstance(node, ast.Name):
+        if node.id in env:
+            return env[node.id]
+        raise TranslateError(f"closure body: unbound name {node.id!r} at line {node.lineno}")
+    if isinstance(node, ast.Subscript) and ast.unparse(node) == "x[indices]":
+        return "x"
+    if isinstance(node, ast.Constant) and isinstance(node.value, (int, float)):
+        return f"(NumAlg.ofRat {lean_rat(node.value)})"
+    if isinstance(node, ast.UnaryOp) and isinstance(node.op, ast.USub):
+        if isinstance(node.operand, ast.Constant):
+            return f"(NumAlg.ofRat {lean_rat(-node.operand.value)})"
+        return f"(NumAlg.neg {np_expr(node.operand, env)})"
+    if isinstance(node, ast.BinOp):
+        ops = {ast.Add: "add", ast.Sub: "sub", ast.Mult: "mul", ast.Div: "div", ast.Pow: "pow"}
+        if type(node.op) in ops:
+            return f"(NumAlg.{ops[type(node.op)]} {np_expr(node.left, env)} {np_expr(node.right, env)})"
+    if isinstance(node, ast.Call):
+        fn = ast.unparse(node.func)
+        if fn in NP_FUNCS and len(node.args) == 1:
+            return f"(NumAlg.unop .{NP_FUNCS[fn]} {np_expr(node.args[0], env)})"
+        if fn == "np.sign" and len(node.args) == 1:
+            return f"(DerivAlg.sign {np_expr(node.args[0], env)})"
+    raise TranslateError(f"closure body outside the whitelisted NumPy subset: {ast.unparse(node)!r} "
+                         f"at line {getattr(node, 'lineno', '?')}")
+
+
+def closure_body(fn: ast.FunctionDef, diag: bool) -> tuple[str, bool]:
+    """(Lean body, sanitised?) of one derivative closure `def grad_xxx(x): …` / `def hess_xxx(x): …`.
+    Accepted shapes:   return E | raw = E; return S(raw) | result = np.zeros(..); result[idx(,idx)] = E; return R
+    with E a NumPy element-wise expression in x / x[indices], S = optional _sanitize_derivatives,
+    and for Hessians the np.diag(..) wrapper of the full variants."""
+    env = {"x": "x"}
+    sanitized = False
+    body_expr = None
+    for st in fn.body:
+        if isinstance(st, ast.Expr) and isinstance(st.value, ast.Constant):
+            continue
+        if isinstance(st, ast.Assign) and len(st.targets) == 1:
+            tgt = st.targets[0]
+            if isinstance(tgt, ast.Name) and tgt.id == "result" and ast.unparse(st.value).startswith("np.zeros("):
+                continue
+            if isinstance(tgt, ast.Subscript) and ast.unparse(tgt) in ("result[indices]", "result[indices, indices]"):
+                body_expr = np_expr(st.value, env)
+                continue
+            if isinstance(tgt, ast.Name):
+                env[tgt.id] = np_expr(st.value, env)
+                continue
+        if isinstance(st, ast.Return):
+            v = st.value
+            if isinstance(v, ast.Call) and ast.unparse(v.func) == "np.diag" and diag:
+                v = v.args[0]
+            if isinstance(v, ast.Call) and ast.unparse(v.func) == "_sanitize_derivatives":
+                sanitized = True
+                v = v.args[0]
+            if isinstance(v, ast.Call) and ast.unparse(v.func) == "np.diag" and diag:
+                v = v.args[0]
+            if isinstance(v, ast.Name) and v.id == "result":
+                if body_expr is None:
+                    raise TranslateError(f"{fn.name}: returns result without an assignment to result[indices]")
+                return body_expr, sanitized
+            return np_expr(v, env), sanitized
+        raise TranslateError(f"{fn.name}: statement outside the closure whitelist: {ast.unparse(st)[:60]!r}")
+    raise TranslateError(f"{fn.name}: no return")
+
+
+def gen_closure_tables(cmp_: ast.AST, ad: ast.AST) -> str:
+    """op -> closure body / sanitised flag, for the full and the sparse variant, of
+    _compile_vectorized_unary_gradient (compiler.py) and of the VectorUnarySum fast paths of
+    compile_hessian (autodiff.py)"""
+    out = []
+
+    def table(fn_outer, chain, prefix, diag):
+        rows = {}
+        for op, body in chain.items():
+            inner = [n for st in body for n in ast.walk(st) if isinstance(n, ast.FunctionDef)]
+            if len(inner) != 2:
+                raise TranslateError(f"{fn_outer}: operator {op!r}: expected a full and a sparse closure, found {len(inner)}")
+            full = next((f for f in inner if not f.name.endswith("_sparse")), None)
+            sparse = next((f for f in inner if f.name.endswith("_sparse")), None)
+            if full is None or sparse is None:
+                raise TranslateError(f"{fn_outer}: operator {op!r}: closure names outside the convention")
+            rows[op] = (closure_body(full, diag), closure_body(sparse, diag), full.name, sparse.name)
+        extra = set(rows) - set(VOPS)
+        if extra:
+            raise TranslateError(f"{fn_outer}: operators outside the model: {sorted(extra)}")
+        for variant, idx in (("Full", 0), ("Sparse", 1)):
+            out.append(f"def {prefix}Body{variant} {{α : Type}} [NumAlg α] [DerivAlg α] (op : VOp) (x : α) : α :=\n  match op with")
+            for o in VOPS:
+                out.append(f"  | .{o} => " + (rows[o][idx][0] if o in rows else "NumAlg.zero"))
+            out.append(f"\ndef {prefix}San{variant} : VOp → Bool")
+            for o in VOPS:
+                out.append(f"  | .{o} => " + ("true" if o in rows and rows[o][idx][1] else "false"))
+            out.append("")
+        out.append(f"def {prefix}Ops : List VOp := [" + ", ".join("." + o for o in VOPS if o in rows) + "]")
+        out.append(f"def {prefix}Names : List (String × String × String) := [" +
+                   ", ".join(f"({json.dumps(o)}, {json.dumps(rows[o][2])}, {json.dumps(rows[o][3])})" for o in VOPS if o in rows) + "]\n")
+
+    g = find_func(cmp_, "_compile_vectorized_unary_gradient")
+    table(g.name, op_chain(find_if_chain_stmts(g, "op"), "op", bare=True, lax_else=True), "vecUn", False)
+    h = find_func(ad, "compile_hessian")
+    blk = class_block(h, "expr", "VectorUnarySum")
+    table(h.name, op_chain(find_if_chain_stmts(ast.Module(body=blk, type_ignores=[]), "op"), "op", bare=True, lax_else=True), "hessUn", True)
+    return "\n".join(out) + "\n"
+
+
 HEADER = """/-
   GENERATED by harness/gen_tables.py from the optyx sources — do not edit.
   Regenerated before every build; the theorems that mention these definitions are
@@ -453,8 +564,11 @@ def main(repo: str, outdir: str) -> int:
     rules += "/-! per-operator tables of the vectorised unary sums -/\n" + gen_unsum_tables(ad, vec) + "\n"
     rules += "end Optyx.Generated\n"
     tables = HEADER + "namespace Optyx.Generated\n\n" + gen_tables(repo) + "\nend Optyx.Generated\n"
+    cmp_ = ast.parse(open(os.path.join(repo, "src/optyx/core/compiler.py")).read())
+    closures = (HEADER + "import Optyx.Py.Sanitize\n\nnamespace Optyx.Generated\nopen Optyx Optyx.Py\n\n"
+                + gen_closure_tables(cmp_, ad) + "\nend Optyx.Generated\n")
     changed = False
-    for fname, text in (("GradRules.lean", rules), ("Tables.lean", tables)):
+    for fname, text in (("GradRules.lean", rules), ("Tables.lean", tables), ("Closures.lean", closures)):
         path = os.path.join(outdir, fname)
         old = open(path).read() if os.path.exists(path) else None
         if old != text:
@@ -462,7 +576,7 @@ def main(repo: str, outdir: str) -> int:
                 f.write(text)
             changed = True
     print(json.dumps({"changed": changed,
-                      "sha": hashlib.sha256((rules + tables).encode()).hexdigest()[:16]}))
+                      "sha": hashlib.sha256((rules + tables + closures).encode()).hexdigest()[:16]}))
     return 0
 
 
